@@ -11,6 +11,9 @@
      [op |-> "continues_on", s]             same signal, delivered on the pool
      [op |-> "ensure_started", s], [op |-> "split1", s] (one consumer), [op |-> "drop_op_state", s]
      [op |-> "split2", s]                   two consumers of one split, joined by when_all and summed
+     [op |-> "split2r", s]                  two consumers of one split, each recovering an error e by itself into the
+                                            value 100+e, joined by when_all and summed (every consumer must be handed
+                                            the error, not only the first one)
      [op |-> "when_all", a, b]              both values -> sum; otherwise the first non-value signal:
                                             one of the children's errors / stopped
      [op |-> "when_all_vector", a, b]       the same for a std::vector of senders
@@ -43,6 +46,8 @@ Den(t) ==
       [] t.op = "let_error" -> {ApplyLetError(t.h, r) : r \in Den(t.s)}
       [] t.op \in {"continues_on", "ensure_started", "split1", "drop_op_state"} -> Den(t.s)
       [] t.op = "split2" -> {IF r.ch = "value" THEN Val(2 * r.v) ELSE r : r \in Den(t.s)}
+      [] t.op = "split2r" -> {IF r.ch = "value" THEN Val(2 * r.v)
+                              ELSE IF r.ch = "error" THEN Val(2 * (100 + r.v)) ELSE r : r \in Den(t.s)}
       [] t.op \in {"when_all", "when_all_vector"} ->
             LET A == Den(t.a)  B == Den(t.b) IN
             UNION {{IF ra.ch = "value" /\ rb.ch = "value" THEN Val(ra.v + rb.v)
@@ -60,7 +65,7 @@ Unary(S) ==
     {[op |-> "then", f |-> f, s |-> s] : f \in {"inc", "dbl", "throw1"}, s \in S}
     \cup {[op |-> "let_value", g |-> g, s |-> s] : g \in {"plus10", "tofail", "throw2"}, s \in S}
     \cup {[op |-> "let_error", h |-> h, s |-> s] : h \in {"recover", "refail"}, s \in S}
-    \cup {[op |-> o, s |-> s] : o \in {"continues_on", "ensure_started", "split1", "split2", "drop_op_state"}, s \in S}
+    \cup {[op |-> o, s |-> s] : o \in {"continues_on", "ensure_started", "split1", "split2", "split2r", "drop_op_state"}, s \in S}
 \* when_all_vector asks its (single) child sender type whether it can send stopped; the type-erased stages
 \* the conformance run builds terms from declare that they cannot, so its children are stop-free terms
 RECURSIVE NoStop(_)
